@@ -447,10 +447,16 @@ def ref_op(spec, j):
 
 
 def coq_case(spec, res, refs):
-    js = sorted(refs)
+    # the History model has no notion of a rejected request: a request that is rejected (same exception) in the fresh
+    # reference and at every call of the history is left to the Python predicate, which compares the exceptions, and its
+    # calls become "anything else" events (world digests still checked)
+    rejected = {j for j, r in refs.items() if r.get("error") is not None and
+                all(e.get("error") == r.get("error") for o, e in zip(spec["ops"], res["events"]) if o[0] == "call" and o[1] == j)}
+    js = sorted(j for j in refs if j not in rejected)
+    ops = [("other_api", 0) if (o[0] == "call" and o[1] in rejected) else o for o in spec["ops"]]
     return (f"({zlit(res['start'][0])}%Z, {zlit(res['start'][1])}%Z, {len(js)}%nat, "
             f"{coq_events(spec, [ref_op(spec, j) for j in js], [refs[j] for j in js])}, "
-            f"{coq_events(spec, spec['ops'], res['events'])})")
+            f"{coq_events(spec, ops, res['events'])})")
 
 
 def run_task(task):
@@ -607,7 +613,7 @@ def run(chk):
                         "answers are compared bit for bit: same interpreter, same libraries, same machine"]
     combos = plan(chk.tier, chk.seed)
     specs = [gen_history(chk.seed, i, m, inf, chk.tier) for i, (m, inf) in enumerate(combos)]
-    if any(not o["ok"] for o in chk.obligations if o["kind"] == "translator-lemma"):
+    if any(not o["ok"] for o in chk.obligations if o["kind"] == "translator-lemma") or os.environ.get("C07_FORCE_SEARCH"):
         # DESIGN 2.7: a static obligation no longer checks -> spend a dedicated budget searching for a failing input:
         # tie-prone histories (duplicated columns, integer-valued data) over every method and the fast estimators
         extra = [(m, inf) for _ in range(3) for m in METHODS for inf in ("knn", "gaussian", "kde")] + \
